@@ -364,6 +364,61 @@ def run(chk):
 
     check_execute_single(chk, drv, "O9.5b")
 
+    # ---- O9.9 cancellation chain and abort policy per task -------------------------------------------------------------------------------------------------------
+    chk.rule("O9.9", "user cancellation: race() tells race control BenchmarkCancelled (blocking) and raises; an exit request sets the worker's cancel event while its executor runs; the worker's "
+             "wake-up reports BenchmarkCancelled before looking at the future; the request loop stops at the next request; the task's error behaviour is 'abort' iff the benchmark's is "
+             "'abort' and the task does not ignore non-fatal errors", 7,
+             "Ctrl+C ends the race as success / stores results; on-error=abort continues after a failed request of some task")
+    kh = [h for t in ast.walk(race_fn) if isinstance(t, ast.Try) for h in t.handlers if h.type is not None and last_attr(h.type) == "KeyboardInterrupt"]
+    ok = bool(kh) and any(isinstance(n, ast.Call) and last_attr(n.func) == "ask" and len(n.args) >= 2 and isinstance(n.args[1], ast.Call) and last_attr(n.args[1].func) == "BenchmarkCancelled" for n in ast.walk(kh[0])) \
+        and isinstance(kh[0].body[-1], ast.Raise)
+    chk.ob("O9.9", "race(): KeyboardInterrupt -> ask(BenchmarkCancelled) then raise", ok, kh[0] if kh else race_fn, "")
+    fin = [t for t in ast.walk(race_fn) if isinstance(t, ast.Try) and t.finalbody]
+    ok = bool(fin) and any(isinstance(n, ast.Call) and last_attr(n.func) == "tell" and "ActorExitRequest" in u(n) for s_ in fin[0].finalbody for n in ast.walk(s_))
+    chk.ob("O9.9", "race(): race control is always told to exit (finally)", ok, fin[0] if fin else race_fn, "")
+    Wk = model.actor("Worker")
+    exr = Wk.methods.get("receiveMsg_ActorExitRequest")
+    ok = exr is not None and any(isinstance(n, ast.Call) and u(n.func) == "self.cancel.set" and any(pol and "running()" in u(t) for t, pol in guards(n)) for n in walk_body(exr))
+    chk.ob("O9.9", "exit request sets the cancel event while the executor runs", ok, exr if exr is not None else Wk.node, "")
+    wkh = Wk.methods.get("receiveMsg_WakeupMessage")
+    gk = cfg_of(wkh)
+    cs_ = [c for c in source.calls_in(wkh, attr="send") if len(c.args) >= 2 and isinstance(c.args[1], ast.Call) and last_attr(c.args[1].func) == "BenchmarkCancelled"]
+    ex_ = [n for n in walk_body(wkh) if isinstance(n, ast.Call) and last_attr(n.func) == "exception"]
+    ok = bool(cs_) and any(pol and u(t) == "self.cancel.is_set()" for t, pol in guards(cs_[0])) and bool(ex_) and not gk.path_exists(gk.node_of(cs_[0]), gk.node_of(ex_[0])) \
+        and any((not pol) and u(t) == "self.cancel.is_set()" for t, pol in guards(ex_[0]))
+    chk.ob("O9.9", "worker wake-up reports cancellation before polling the future", ok, cs_[0] if cs_ else wkh, "")
+    first = loops[0].body[0]
+    ok = isinstance(first, ast.If) and u(first.test) == "self.cancel.is_set()" and any(isinstance(x, ast.Break) for x in first.body)
+    chk.ob("O9.9", "request loop stops at the next request once cancelled", ok, first, "")
+    trkm = repo.module("esrally/track/track.py")
+    chk.use(trkm)
+    eb = trkm.methods(trkm.cls("Task")).get("error_behavior")
+    if eb is None:
+        raise AnchorMissing("Task.error_behavior")
+    from sa.tables import decide as _decide, Unsupported as _Uns
+    dpar = params_of(eb)[1]
+    for dflt, ignores in ((True, False), (True, True), (False, False), (False, True)):
+        def atom(n, env):
+            t = u(n)
+            return {f"{dpar} == 'abort'": dflt, "self.ignore_response_error_level != 'non-fatal'": not ignores, "self.ignore_response_error_level == 'non-fatal'": ignores}.get(t)
+
+        try:
+            out = _decide(eb.body, atom, {})
+        except (_Uns, UnknownAtom) as e:
+            chk.unknown("O9.9", f"error_behavior is not a decision over (default is abort, task ignores non-fatal): {e}", eb)
+            break
+        got = out.value.value if out.kind == "return" and isinstance(out.value, ast.Constant) else None
+        want = "abort" if (dflt and not ignores) else "continue"
+        chk.ob("O9.9", f"error behaviour when on-error={'abort' if dflt else 'continue'} and the task {'ignores' if ignores else 'does not ignore'} non-fatal errors", got == want, eb, f"{got}; expected {want}",
+               key=f"esrally/track/track.py:Task.error_behavior:{dflt}|{ignores}")
+    adp = drv.methods(drv.cls("AsyncIoAdapter"))["run"]
+    exc_ = [n for n in walk_body(adp) if isinstance(n, ast.Call) and last_attr(n.func) == "AsyncExecutor"]
+    ok = bool(exc_) and u(exc_[0].args[-1]) == "task.error_behavior(self.abort_on_error)"
+    chk.ob("O9.9", "each executor gets its task's error behaviour derived from the worker's on-error setting", ok, exc_[0] if exc_ else adp, "")
+    wst = Wk.methods.get("receiveMsg_StartWorker")
+    ok = any(isinstance(n, ast.Assign) and is_self_attr(n.targets[0], "on_error") and "'on.error'" in u(n.value) for n in walk_body(wst))
+    chk.ob("O9.9", "worker reads on-error from the driver configuration", ok, wst, "")
+
     # ---- O9.6 no results on error or cancel ----------------------------------------------------------
     chk.rule("O9.6", "in the coordinator every call that computes, stores or prints results is reachable only under cancelled=False and error=False "
              "(4-row truth table of the guarding predicates); the flags are only ever set to True after construction", 5,
@@ -526,6 +581,9 @@ VARIANTS = [
     V("race() failure arm logs only", "break", _R, "            raise exceptions.RallyError(result.message, result.cause)", "            pass", "O9.7"),
     V("task executor poison without handler: createActor in class lacking PoisonMessage", "break", _D, "    def receiveMsg_PoisonMessage(self, poisonmsg, sender):\n        self.logger.error(\"Track Preparator received",
       "    def on_poison(self, poisonmsg, sender):\n        self.logger.error(\"Track Preparator received", "O9.3p"),
+    V("cancel not reported by the worker", "break", _D, "                self.send(self.driver_actor, actor.BenchmarkCancelled())", "                self.logger.info('cancelled')", "O9."),
+    V("on-error=abort ignored for every task", "break", "esrally/track/track.py", "            if self.ignore_response_error_level != \"non-fatal\":\n                behavior = \"abort\"", "            if self.ignore_response_error_level == \"non-fatal\":\n                behavior = \"abort\"", "O9.9"),
+    V("KeyboardInterrupt does not notify race control", "break", _R, "        actor_system.ask(benchmark_actor, actor.BenchmarkCancelled())\n", "", "O9.9"),
     # behaviour-preserving
     V("guard via explicit try/except instead of decorator", "keep", _D,
       '    @actor.no_retry("driver")  # pylint: disable=no-value-for-parameter\n    def receiveMsg_UpdateSamples(self, msg, sender):\n        self.driver.update_samples(msg.samples)',
